@@ -1,7 +1,7 @@
 SPECIFICATION LSpec
 CONSTANTS
-  RTargets = {"a", "a::b", "ab", "b", "skip", "skip::x", "skipper"}
-  Prefixes = {"", "a", "a::b", "skip"}
+  RTargets = {"a", "a::b", "ab", "b", "skip", "skip::x", "skipper", "my-app", "my-app::db", "my_app::db"}
+  Prefixes = {"", "a", "a::b", "skip", "my-app"}
   ResetOnDrop = TRUE
 INVARIANT LogsIffNever
 CHECK_DEADLOCK FALSE
